@@ -423,6 +423,12 @@ def run(ctx, report):
     from .c15 import eq_rule
     eq_rule(ctx, R6)
 
+    # ---------------------------------------------------------------- D7 the parity fold is the parity of the low byte
+    R7 = report.rule('C05.D7', 'the constant fold of parity gives the x86 parity flag (low byte) at every width, as the evaluator does', floor=1)
+    from .c06 import parity_rule
+    ea_ = ctx.mod('eval_abs')
+    parity_rule(R7, ea_, ctx.mod('expr_helper'), ea_.methods('eval_abs'))
+
 
 def size_table_rule(R, hlp, fns):
     """Every `tab_size_int[K]` of the simplifier: K must be the width of something known to be a constant (dominating isinstance(.., ExprInt) on the
